@@ -69,12 +69,12 @@ RANGE_SLACK = 1e-12
 
 def _alph(tier):
     if tier == "quick":
-        return {"ri": [0.05, 0.1, 0.3, 0.6, 0.9, 0.99], "nr": [6, 8, 12, 16, 24],
+        return {"ri": [0.05, 0.1, 0.3, 0.6, 0.9, 0.99], "nr": [6, 7, 8, 12, 13, 16, 24],
                 "nfunc": [1, 2, 3, 6, 10, 20, 40],
                 "dim": [8, 16, 17, 32, 64], "mask": [True, False],
                 "c_ri": [0.1, 0.3, 0.6, 0.9], "c_nr": [8, 16, 40], "c_nmax": [1, 3, 10, 20]}
     return {"ri": [0.01, 0.05, 0.1, 0.2, 0.3, 0.5, 0.6, 0.75, 0.9, 0.95, 0.99, 0.999],
-            "nr": [4, 5, 6, 7, 8, 12, 16, 24, 32, 40],
+            "nr": [4, 5, 6, 7, 8, 9, 12, 13, 15, 16, 24, 32, 40],
             "nfunc": [1, 2, 3, 4, 5, 6, 7, 10, 15, 20, 30, 40, 60, 100, 150],
             "dim": [8, 9, 16, 17, 32, 33, 64, 127, 128], "mask": [True, False],
             "c_ri": [0.05, 0.1, 0.3, 0.6, 0.9, 0.99], "c_nr": [8, 16, 24, 40], "c_nmax": [1, 2, 3, 6, 10, 20, 40]}
